@@ -24,7 +24,7 @@ class C16(Prop):
     rule = 'legend items: a drawing without # followed by a legend (header/blank/eol variants, 0-6 entries, identifiers x declarations over all scalars except braces incl. line ends, quotes, markup); tag items: tags in boxes, rounded boxes, circles, nested boxes, beside text, outside shapes; non-trivial when the legend has an entry or the drawing has a tag'
     level_text = ('Theorems C16_legend_entries_read_back (parse o print = id for every legend in the documented form, LF and CRLF, blanks after the brace, any number of entries), C16_legend_is_not_drawn (the cell buffer is that of the text before the header, LF or CRLF), C16_rules_in_order, '
                   'C16_tag_outside_everything_stays_text (iff no node fits it), C16_taken_tag_becomes_classes (not rendered, names added), C16_other_text_unaffected, C16_children_first, C16_tag_goes_to_an_innermost_node (for every tree and tag the taker is a node the tag fits in, with no node below it and no earlier subtree that it fits in; nothing else changes); by induction over entries and over the tree. '
-                  'Through the whole model from the cells to the (fragment, class names) list, by sweeps inside Coq: C16_nested_boxes_name_the_inner_one (144 placements of {a} in the inner of two nested sharp/rounded boxes, flush against the wall included: only the inner rectangle is named, the tag is not rendered; outside both it stays text) and C16_tag_in_a_circle_names_it (547 places in the 12 catalogue circles with room).')
+                  'Through the whole model from the cells to the (fragment, class names) list, by sweeps inside Coq: C16_nested_boxes_name_the_inner_one (144 placements of {a} in the inner of two nested sharp/rounded boxes, flush against the wall included: only the inner rectangle is named, the tag is not rendered; outside both - right, left, above, below - it stays text) and C16_tag_in_a_circle_names_it (547 places in the 12 catalogue circles with room).')
     level_note = 'partial (see DESIGN.md C16): that the enclosure pass has built the nesting when a tag arrives is proved on the swept nestings and otherwise relies on correspondence plus oracle'
     def legend_item(self, rng, gen='legend'):
         before = rng.choice(['', '+--+\n|{a}|\n+--+\n', '{b}\n', ' .-.\n( a )\n `-\'\n', 'ab -- cd\n', '+-----+\n| {a} |\n+-----+\n  {zz}\n'])
